@@ -213,8 +213,11 @@ pub fn gen_big_tree(rng: &mut Rng, bytes: usize) -> Tree {
 /// A deep, narrow chain (depth up to `d`) to exercise nesting.
 pub fn gen_chain(rng: &mut Rng, d: u32) -> Tree {
     let mut t: Tree = vec![("leaf".to_string(), Node::Int(rng.next_u32() as i32))];
+    // one chain in three uses one-byte keys throughout (a reader then issues nothing but one-byte reads on the way down)
+    let short = rng.chance(1, 3);
     for i in 0..d {
-        t = vec![(format!("n{}", i % 7), Node::Map(t))];
+        let key = if short { ((b'a' + (i % 7) as u8) as char).to_string() } else { format!("n{}", i % 7) };
+        t = vec![(key, Node::Map(t))];
     }
     t
 }
